@@ -105,6 +105,17 @@ struct Session
 
     void feed(const Bytes& f)
     {
+        if (counter % 97 == 50)
+        {
+            // a null pointer with any size and a valid pointer with size 0 are byte strings of length 0 as far as the caller can tell
+            auto a = dec->decode(nullptr, 0);
+            auto b = dec->decode(nullptr, f.size());
+            uint8_t one = 1;
+            auto d = dec->decode(&one, 0);
+            if (!a.empty() || !b.empty() || !d.empty())
+                c.violation("C02:too-many-packets", "packets returned for an empty input", "decode(nullptr, n) / decode(p, 0)");
+            c.count("null_or_empty_inputs", 3);
+        }
         fed.push_back(f);
         c.note("history=" + describeFrames(fed, fed.size() - 1));
         ++c.evaluations;
